@@ -23,6 +23,7 @@ type (
 		cancelFn context.CancelFunc
 		wg       sync.WaitGroup
 		hook     DispatchHook
+		cxns     []*clientCxn // connections accepted by this emulator (guarded by mu)
 
 		port            int
 		iface           string
@@ -96,6 +97,33 @@ func (eng *RedisEmu) RequestTermination() {
 		eng.cancelFn()
 		eng.cancelFn = nil
 	}
+
+	// existing connections must not outlive the emulator
+	for _, cc := range eng.cxns {
+		cc.RequestClose()
+	}
+	eng.cxns = nil
+}
+
+// remembers a connection so that termination can close it; a connection that
+// arrives after termination was requested is closed right away
+func (eng *RedisEmu) trackConnection(cc *clientCxn) {
+	eng.mu.Lock()
+	defer eng.mu.Unlock()
+
+	if eng.server == nil {
+		cc.RequestClose()
+		return
+	}
+
+	// forget connections that were already told to close
+	live := eng.cxns[:0]
+	for _, c := range eng.cxns {
+		if !c.IsCloseRequested() {
+			live = append(live, c)
+		}
+	}
+	eng.cxns = append(live, cc)
 }
 
 func (eng *RedisEmu) killSignalMonitor() {
@@ -181,7 +209,9 @@ func (eng *RedisEmu) startServer() {
 		os.Exit(1)
 	}
 
+	eng.mu.Lock()
 	eng.server = server
+	eng.mu.Unlock()
 	eng.l.Infof("listening on %s", server.Addr().String())
 
 	// make a command dispatcher
@@ -227,7 +257,7 @@ func (eng *RedisEmu) startServer() {
 				break
 			}
 			eng.l.Infof("client connected: %s", connection.RemoteAddr().String())
-			newClientCxn(eng.l, connection, dispatcher)
+			eng.trackConnection(newClientCxn(eng.l, connection, dispatcher))
 		}
 	}()
 }
